@@ -171,6 +171,7 @@ func genC20(g *gen) {
 
 	// agent.handleStreamOpen: HasPrefix(destAddr, ForwardStreamPrefix) -> key := TrimPrefix(destAddr, ForwardStreamPrefix) -> forwardHandler.HandleStreamOpen(..., key, ...)
 	strips := false
+	keyRewritten := false
 	af := parseFile("internal/agent/agent.go")
 	if fd := findFunc(af, "Agent", "handleStreamOpen"); fd != nil && fd.Body != nil {
 		ast.Inspect(fd.Body, func(n ast.Node) bool {
@@ -195,6 +196,21 @@ func genC20(g *gen) {
 			if keyVar == "" {
 				return true
 			}
+			// the key is what follows the prefix, unchanged: no second assignment (truncation, trimming, splitting)
+			assigns := 0
+			ast.Inspect(is.Body, func(m ast.Node) bool {
+				if as, ok := m.(*ast.AssignStmt); ok {
+					for _, l := range as.Lhs {
+						if src(l) == keyVar {
+							assigns++
+						}
+					}
+				}
+				return true
+			})
+			if assigns != 1 {
+				keyRewritten = true
+			}
 			calls(is.Body, func(hc *ast.CallExpr) {
 				if strings.HasSuffix(calleeName(hc), "forwardHandler.HandleStreamOpen") {
 					for _, a := range hc.Args {
@@ -208,4 +224,5 @@ func genC20(g *gen) {
 		})
 	}
 	g.line("Definition gen_dispatch_strips_prefix_and_passes_key : bool := %s.", coqBool(strips))
+	g.line("Definition gen_dispatch_passes_the_key_unmodified : bool := %s.", coqBool(strips && !keyRewritten))
 }
